@@ -44,6 +44,8 @@ def run(ctx, which):
         raise Violation(f'{what}: real code gives "{code[:200]}", model/specification says "{model[:200]}" for {line[:200]}', replay)
     if which == 'c11':
         convert_cli(ctx)
+    else:
+        truncated_cli(ctx)
     if ctx.thorough:
         common.leanchecker(ctx, [f'Smtb.Properties.{prop}'])
 
@@ -92,9 +94,102 @@ def convert_cli(ctx):
         raise Violation(f'convert-to-raw ({bad[0]}): exit {bad[1]}, file afterwards {bad[3]} bytes: {bad[4][-150:]}', replay)
 
 
+def truncated_cli(ctx):
+    """Every CLI command that loads a keys file, on strict prefixes of a real system's file in both
+    formats: the command must end with a non-zero status, and `start` must never listen."""
+    import socket, subprocess, time
+    d = ctx.scratchdir()
+    cli = common.build_cli(ctx)
+    files = {'compressed': os.path.join(d, 'real.compressed.keys'), 'raw': os.path.join(d, 'real.raw.keys')}
+    if not all(os.path.exists(f) for f in files.values()):
+        raise common.TieBroken('T-corr truncated-cli', 'corrfile did not leave the real system files')
+    full = files['compressed']
+    params = common.run([cli, 'gen-test-params', '--mode', 'insertion', '--tree-depth', '3', '--batch-size', '2']).stdout
+    pr = subprocess.run([cli, 'prove', '--mode', 'insertion', '--keys-file', full], input=params, capture_output=True, text=True, timeout=600)
+    import json as _json
+    try:
+        ih = _json.loads(params)['inputHash']
+        _json.loads(pr.stdout)
+    except Exception:
+        raise common.TieBroken('T-corr truncated-cli', f'prove with the intact keys did not print a proof: exit {pr.returncode} {pr.stderr[-300:]}')
+    proof = os.path.join(d, 'proof.json')
+    open(proof, 'w').write(pr.stdout)
+    bad = None
+    runs = 0
+    for fmt, path in files.items():
+        data = open(path, 'rb').read()
+        n = len(data)
+        for k in sorted({5, n // 3, n - 1000, n - 1}):
+            cut = os.path.join(d, f'cut-{fmt}-{k}.keys')
+            open(cut, 'wb').write(data[:k])
+            out = os.path.join(d, 'out.tmp')
+            cmds = {
+                'prove': ([cli, 'prove', '--mode', 'insertion', '--keys-file', cut], params),
+                'verify': ([cli, 'verify', '--mode', 'insertion', '--keys-file', cut, '--proof', proof, '--input-hash', ih], None),
+                'export-vk': ([cli, 'export-vk', '--keys-file', cut, '--output', out], None),
+                'export-solidity': ([cli, 'export-solidity', '--keys-file', cut, '--output', out], None),
+                'convert-to-raw': ([cli, 'convert-to-raw', '--input', cut, '--output', out], None),
+            }
+            for name, (argv, stdin) in cmds.items():
+                try:
+                    r = subprocess.run(argv, input=stdin, capture_output=True, text=True, timeout=300)
+                    verdict, rc = ('ok' if r.returncode != 0 else 'exit 0'), r.returncode
+                except subprocess.TimeoutExpired:
+                    verdict, rc = 'hang (300 s)', None
+                runs += 1
+                if verdict != 'ok' and not bad:
+                    bad = (name, fmt, k, n, verdict)
+            # start: must exit non-zero by itself and never accept a connection
+            pa, ma = 38211, 38212
+            proc = subprocess.Popen([cli, 'start', '--mode', 'insertion', '--keys-file', cut, '--prover-address', f'127.0.0.1:{pa}',
+                                     '--metrics-address', f'127.0.0.1:{ma}'], stdout=subprocess.DEVNULL, stderr=subprocess.DEVNULL)
+            t0, listening = time.time(), False
+            while proc.poll() is None and time.time() - t0 < 60:
+                for port in (pa, ma):
+                    try:
+                        socket.create_connection(('127.0.0.1', port), timeout=0.2).close()
+                        listening = True
+                    except OSError:
+                        pass
+                if listening:
+                    break
+                time.sleep(0.05)
+            if proc.poll() is None:
+                proc.kill()
+                proc.wait()
+                verdict = 'serving on the truncated file' if listening else 'still running after 60 s without listening'
+            else:
+                verdict = 'ok' if proc.returncode != 0 else 'exit 0'
+            runs += 1
+            if verdict != 'ok' and not bad:
+                bad = ('start', fmt, k, n, verdict)
+            os.remove(cut)
+    ctx.oblige(f'CLI on truncated keys ({runs} runs: prove, verify, export-vk, export-solidity, convert-to-raw, start x both formats x 4 cuts): '
+               'non-zero exit, start never listens', not bad, '' if not bad else str(bad))
+    ctx.extra['extra_evaluations'] = ctx.extra.get('extra_evaluations', 0) + runs
+    ctx.extra['extra_distinct'] = ctx.extra.get('extra_distinct', 0) + runs
+    for f in os.listdir(d):
+        if f.endswith('.keys'):
+            os.remove(os.path.join(d, f))
+    if bad:
+        name, fmt, k, n, verdict = bad
+        replay = common.write_replay(ctx, 'truncated-cli', {'kind': 'truncated-cli', 'command': name, 'format': fmt, 'cut': k, 'file_size': n, 'observed': verdict,
+                                                           'recipe': f'gnark-mbu setup --mode insertion --tree-depth 3 --batch-size 2 (format {fmt}); truncate the keys file to {k} of {n} bytes; gnark-mbu {name} --keys-file <cut>'})
+        raise Violation(f'`gnark-mbu {name}` on a {fmt} keys file cut at {k} of {n} bytes: {verdict}', replay)
+
+
 def replay(ctx, data):
     common.go_build(['corrfile'])
     common.lake_build(['driver'])
+    if data.get('kind') in ('truncated-cli', 'convert'):
+        common.run([os.path.join(common.HBIN, 'corrfile'), '-seed', '1', '-tiny', '0', '-real', '-cuts', '0', '-window', '0', '-dir', ctx.scratchdir()], timeout=3600)
+        try:
+            (truncated_cli if data['kind'] == 'truncated-cli' else convert_cli)(ctx)
+        except Violation as v:
+            print('REPLAY: reproduces ' + v.what[:600])
+            return 1
+        print('REPLAY: no longer fails')
+        return 0
     args = list(data['go_args'])
     if '-dir' in args:
         args[args.index('-dir') + 1] = ctx.scratchdir()
